@@ -439,6 +439,9 @@ pub fn c04_case(b: &Batch, ri: usize, vals: &[DV], k: usize, st: &mut Stats, cou
         // (1) bulk bytes == [len] ++ singles, (2) bulk decode == element-wise decode
         let mut single_dec: Vec<DV> = vec![];
         for s in &singles {
+            if std::env::var_os("VERIF_TRACE").is_some() {
+                eprintln!("TRACE c04 single v={} {} bytes={}", v, ops.type_name(), hex_full(s));
+            }
             let (d, c) = expect_ok(ops.read_slice(Container::Bare, PathK::Single, v, s), "bare_deserialize", json!({"version": v}))?;
             if c != s.len() {
                 return Err(fail("packed_single_consumed", format!("single decode consumed {} of {}", c, s.len()), json!({"version": v})));
@@ -469,6 +472,9 @@ pub fn c04_case(b: &Batch, ri: usize, vals: &[DV], k: usize, st: &mut Stats, cou
                 return Err(fail("packed_bulk_bytes", format!("{:?} length {} != concatenated singles {}", p, bulk.len(), want.len()), ex));
             }
             // decode the *concatenated singles* through the bulk reader
+            if std::env::var_os("VERIF_TRACE").is_some() {
+                eprintln!("TRACE c04 bulk {:?} v={} {} bytes={}", p, v, ops.type_name(), hex_full(&want));
+            }
             let (got, c) = expect_ok(ops.read_slice(Container::Bare, p, v, &want), "bare_deserialize_bulk", ex.clone())?;
             if c != want.len() {
                 return Err(fail("packed_bulk_consumed", format!("{:?} decode consumed {} of {}", p, c, want.len()), ex));
